@@ -23,7 +23,8 @@ import sys
 import time
 
 VERIF = "/verif"
-REPO = "/repo"
+REPO = os.environ.get("VERIF_REPO", "/repo")  # seed testing points this at a scratch worktree; checks registered in MANIFEST use /repo
+OUT = os.environ.get("VERIF_OUT", VERIF)  # where evidence/, replays/, logs/ are written (seed testing: a scratch dir)
 KANI_FLAGS = ["-Z", "function-contracts", "-Z", "stubbing", "-Z", "unstable-options", "-Z", "concrete-playback"]
 
 
@@ -134,6 +135,11 @@ def prepare_scratch(scratch, modules, contracts, use_models, for_playback=False)
             n = 0
             out = []
             for line in text.split("\n"):
+                if re.match(r"^use std::\{collections::HashSet, convert::TryInto\};\s*$", line):
+                    out += ["#[cfg(not(kani))]", line, "#[cfg(kani)]", "use std::convert::TryInto;", "#[cfg(kani)]",
+                            "use crate::verif_models::HashSet;"]
+                    n += 1
+                    continue
                 m = re.match(r"^use std::collections::(HashMap|HashSet|\{[^}]*\});\s*$", line)
                 if m and "BTreeMap" not in line:
                     names = re.findall(r"HashMap|HashSet", line)
@@ -188,14 +194,17 @@ def generate_files(scratch, gens):
         for part in g["parts"]:
             text = open(f"{REPO}/src/{part['file']}").read()
             body = extract_block(text, part["start"], f"src/{part['file']}")
+            for sub in part.get("substitute", []):
+                body, k = re.subn(sub["pattern"], sub["with"], body)
+                if k != 1:
+                    raise Undecided(f"lost anchor: /{sub['pattern']}/ occurs {k} times in the body extracted from src/{part['file']}")
+                notes.append(f"in that body, the expression /{sub['pattern']}/ was replaced by `{sub['with']}` ({sub.get('why', '')})")
             bodies.append(re.sub(r"\s+", " ", body).strip())
             out.append(f"// extracted verbatim from src/{part['file']} (loop body after /{part['start']}/)\n"
                        + g["wrap"].replace("@FN@", part["fn"]).replace("@BODY@", body))
             notes.append(f"extracted loop body of src/{part['file']} after /{part['start']}/ into gen/{g['out']} as fn {part['fn']}; dropped: loop header and its iterator/stream")
-        if g.get("require_identical") and len(set(bodies)) != 1:
-            raise Undecided("the extracted bodies are no longer token-identical: " + " | ".join(p["file"] for p in g["parts"])
-                            + " (the sync and async flavours drifted apart; both are still verified separately)") \
-                if g.get("identical_is_fatal") else None
+        if g.get("require_identical") and g.get("identical_is_fatal") and len(set(bodies)) != 1:
+            raise Undecided("the extracted bodies are no longer token-identical: " + " | ".join(p["file"] for p in g["parts"]))
         notes.append("extracted bodies token-identical after whitespace normalisation: " + str(len(set(bodies)) == 1))
         open(f"{scratch}/gen/{g['out']}", "w").write("\n".join(out))
     return notes
@@ -336,8 +345,8 @@ def kani_cmd(h, extra=()):
     return cmd
 
 
-def run_harness(scratch, h, logdir):
-    cwd = f"{scratch}/repo"
+def run_harness(scratch, h, logdir, cwd=None):
+    cwd = cwd or f"{scratch}/repo"
     rc, out, wall, to = run_cmd(kani_cmd(h), cwd, h.get("timeout_s", 600), h.get("mem_gb", 8))
     open(f"{logdir}/{h['name'].split('::')[-1]}.log", "w").write(out)
     return classify(h, rc, out, wall, to), out
@@ -351,8 +360,8 @@ def replay(scratch, h, res, out, pid):
     """Write the replay file for a failed obligation; try Kani's concrete playback against the
     native build of the real code. Returns (path, reproduced: bool)."""
     short = h["name"].split("::")[-1]
-    os.makedirs(f"{VERIF}/replays/{pid}", exist_ok=True)
-    path = f"{VERIF}/replays/{pid}/{short}.txt"
+    os.makedirs(f"{OUT}/replays/{pid}", exist_ok=True)
+    path = f"{OUT}/replays/{pid}/{short}.txt"
     lines = [f"property: {pid}", f"obligation (harness): {h['name']}", f"strength: {h['kind']}"
              + (f" (bound: {h['bound']})" if h.get("bound") else ""),
              f"functions under contract: {', '.join(h.get('functions', []))}",
@@ -437,7 +446,7 @@ def run_verus(scratch, v):
     res = {"file": v["file"], "wall_s": round(wall, 1), "verdict": "undecided", "verified": 0, "errors": 0,
            "reason": "", "kind": "verus"}
     try:
-        j = json.loads(out[out.index("{"):])
+        j = json.loads(out[out.index('{\n  "'):] if '{\n  "' in out else out[out.index("{"):])
         vr = j.get("verification-results", {})
         res["verified"] = vr.get("verified", 0)
         res["errors"] = vr.get("errors", 0)
@@ -545,7 +554,7 @@ def main():
         os.makedirs(logdir, exist_ok=True)
         hs = [h for h in unit.get("harnesses", []) if tier == "thorough" or h.get("tier", "quick") == "quick"]
         if a.only:
-            hs = [h for h in hs if a.only in h["name"]]
+            hs = [h for h in hs if re.search(a.only, h["name"])]
         for h in hs:
             rel = h["name"].split("::verif_kani::")[0].replace("::", "/") + ".rs"
             h["module_rel"] = rel
@@ -560,7 +569,7 @@ def main():
 
         vs = [v for v in unit.get("verus", []) if tier == "thorough" or v.get("tier", "quick") == "quick"]
         if a.only:
-            vs = [v for v in vs if a.only in v["file"]]
+            vs = [v for v in vs if re.search(a.only, v["file"])]
 
         # ---- Kani: compile once, then harnesses in parallel by memory class
         if hs:
@@ -572,12 +581,28 @@ def main():
                 raise Undecided("spliced copy does not compile under cargo kani: " + " | ".join(errs[:4])
                                 + f" (log: {logdir}/build.log)")
             log(f"[{pid}] build ok in {wall:.0f}s; running {len(hs)} harness(es), tier={tier}")
-            small = [h for h in hs if h.get("mem_gb", 8) <= 8]
-            large = [h for h in hs if h.get("mem_gb", 8) > 8]
+            small = [h for h in hs if h.get("mem_gb", 8) <= 10]
+            large = [h for h in hs if h.get("mem_gb", 8) > 10]
             outs = {}
 
+            # cargo kani holds the build-directory lock for the whole run of a harness, so harnesses
+            # sharing one target directory are serialised: give every worker its own copy of the
+            # built tree (232 MB each; deleted with the scratch directory)
+            import queue
+            nworkers = max(1, min(a.jobs, len(small)))
+            dirs = queue.Queue()
+            dirs.put(f"{scratch}/repo")
+            for k in range(1, nworkers):
+                d = f"{scratch}/repo-w{k}"
+                subprocess.run(["cp", "-a", f"{scratch}/repo", d], check=True)
+                dirs.put(d)
+
             def go(h):
-                r, o = run_harness(scratch, h, logdir)
+                d = dirs.get()
+                try:
+                    r, o = run_harness(scratch, h, logdir, d)
+                finally:
+                    dirs.put(d)
                 log(f"[{pid}]   {r['verdict']:9s} {h['kind']:8s} {h['name'].split('::')[-1]}  "
                     f"checks={r['checks']} covers={r['covers_satisfied']}/{r['covers']} {r['wall_s']}s rss={r['rss_mb']}MB  {r['reason'][:150]}")
                 return h, r, o
@@ -628,8 +653,8 @@ def main():
             status["code"] = 1
             for h, r in violations:
                 if r.get("kind") == "verus":
-                    os.makedirs(f"{VERIF}/replays/{pid}", exist_ok=True)
-                    path = f"{VERIF}/replays/{pid}/{os.path.basename(h['file'])}.txt"
+                    os.makedirs(f"{OUT}/replays/{pid}", exist_ok=True)
+                    path = f"{OUT}/replays/{pid}/{os.path.basename(h['file'])}.txt"
                     open(path, "w").write(f"property: {pid}\nobligation: Verus file {h['file']}\n"
                                           f"no-failing-input-found (Verus gives no counterexample)\n\n{r['raw']}\n")
                     log(f"VIOLATION property={pid} replay={path} no-failing-input-found")
@@ -658,8 +683,8 @@ def main():
                 log(f"[{pid}] could not write evidence: {e}")
         try:  # keep the per-harness logs of the last run (gitignored) for diagnosis
             if os.path.isdir(logdir):
-                shutil.rmtree(f"{VERIF}/logs/{pid}", ignore_errors=True)
-                shutil.copytree(logdir, f"{VERIF}/logs/{pid}")
+                shutil.rmtree(f"{OUT}/logs/{pid}", ignore_errors=True)
+                shutil.copytree(logdir, f"{OUT}/logs/{pid}")
         except Exception:
             pass
         if not a.keep:
@@ -730,10 +755,10 @@ def write_evidence(pid, tier, seed, unit, results, vresults, status, splice_chan
     ev = {"property_id": pid, "tier": tier, "seed": seed, "level": level_out, "coverage": cov,
           "assumptions": unit.get("assumptions", []), "wall_s": round(wall, 1),
           "violations": 1 if status["code"] == 1 else 0}
-    os.makedirs(f"{VERIF}/evidence", exist_ok=True)
-    tmp = f"{VERIF}/evidence/{pid}.json.tmp"
+    os.makedirs(f"{OUT}/evidence", exist_ok=True)
+    tmp = f"{OUT}/evidence/{pid}.json.tmp"
     json.dump(ev, open(tmp, "w"), indent=1)
-    os.replace(tmp, f"{VERIF}/evidence/{pid}.json")
+    os.replace(tmp, f"{OUT}/evidence/{pid}.json")
 
 
 if __name__ == "__main__":
